@@ -303,7 +303,7 @@ def run_case(ctx, case):
 
 def main(ctx):
     consts(ctx)
-    depth = 5 if ctx.quick else 7
+    depth = 5 if ctx.quick else 6      # 7 no longer fits since the canonical state carries the last-written digest (memory of the pickled frontier)
     agg, info = search(St(), OPS, step, canon, depth)
     ctx.extra_cov.update({
         "states": info["states"], "transitions": info["transitions"],
